@@ -53,7 +53,7 @@ fn eqb<const T: usize>(a: &[u64; T], b: &[u64]) -> bool {
 /// input to `best` (checked pointwise on a symbolic assignment) -- including "no candidate improves".
 /// Candidates are computed with the public swap (exact by C03).
 macro_rules! k04_walk_p {
-    ($name:ident, $n:literal, $t:literal, $u:literal) => {
+    ($name:ident, $n:literal, $t:literal, $maxlen:literal, $u:literal) => {
         #[kani::proof]
         #[kani::unwind($u)]
         pub fn $name() {
@@ -64,7 +64,7 @@ macro_rules! k04_walk_p {
             let seq: [u8; 2] = kani::any();
             kani::assume((seq[0] as usize) < N - 1 && (seq[1] as usize) < N - 1);
             let len: usize = kani::any();
-            kani::assume(len <= 2);
+            kani::assume(len <= $maxlen);
             let mut table = t0;
             let mut best = [0u64; T];
             let ind = crate::canonization::p_canonization_ind(N, &mut table, &mut best, &seq[..len]);
@@ -97,8 +97,73 @@ macro_rules! k04_walk_p {
                 k += 1;
             }
             assert!(bit(&best, y) == bit(&t0, x));
-            kani::cover!(ind == 0 && len == 2, "no candidate improves");
-            kani::cover!(ind == 2, "second candidate is the best");
+            kani::cover!(ind == 0 && len == $maxlen, "no candidate improves");
+            kani::cover!(ind == $maxlen, "last candidate is the best");
+            kani::cover!(true, "reached");
+        }
+    };
+}
+
+/// L1 walk lemma with a CONCRETE one-step sequence on a large table (3+ words): exercises the comparison and
+/// the bookkeeping of the walks on multi-word tables at a cost the quick tier can afford (a symbolic step
+/// index at n = 8 costs 20-30 min).  $grp: 0 = P (swap $s, $s+1), 1 = N (flip $s).
+macro_rules! k04_walk_fixed {
+    ($name:ident, $n:literal, $t:literal, $grp:literal, $s:literal, $u:literal) => {
+        #[kani::proof]
+        #[kani::unwind($u)]
+        pub fn $name() {
+            const N: usize = $n;
+            const T: usize = $t;
+            type L = crate::StaticLut<N, T>;
+            let t0 = any_blocks::<T>(N);
+            let seq: [u8; 1] = [$s];
+            let mut table = t0;
+            let mut best = [0u64; T];
+            let f = L::from_blocks(&t0);
+            let y = any_m(N);
+            if $grp == 0 {
+                let ind = crate::canonization::p_canonization_ind(N, &mut table, &mut best, &seq);
+                let c1 = f.swap($s, $s + 1);
+                let (b, i) = if c1 < f { (c1, 1usize) } else { (f, 0usize) };
+                assert!(eqb(&table, c1.blocks()));
+                assert!(eqb(&best, b.blocks()));
+                assert!(ind == i);
+                let mut perm = [0u8; N];
+                crate::canonization::p_canonization_res(N, &mut perm, &seq, ind);
+                assert!(is_perm(&perm, N));
+                let mut x = 0usize;
+                let mut k = 0;
+                while k < N {
+                    x |= ((y >> k) & 1) << (perm[k] as usize);
+                    k += 1;
+                }
+                assert!(bit(&best, y) == bit(&t0, x));
+                kani::cover!(ind == 1, "P: the candidate improves");
+                kani::cover!(ind == 0, "P: no candidate improves");
+            } else {
+                let ind = crate::canonization::n_canonization_ind(N, &mut table, &mut best, &seq);
+                let c2 = f.flip($s);
+                let c1 = !c2;
+                let mut b = f;
+                let mut i = 0usize;
+                if c1 < b {
+                    b = c1;
+                    i = 1;
+                }
+                if c2 < b {
+                    b = c2;
+                    i = 2;
+                }
+                assert!(eqb(&table, c2.blocks()));
+                assert!(eqb(&best, b.blocks()));
+                assert!(ind == i);
+                let mask = crate::canonization::n_canonization_res(N, &seq, ind);
+                assert!(mask < (1u32 << (N + 1)));
+                let x = y ^ ((mask as usize) & ((1usize << N) - 1));
+                assert!(bit(&best, y) == (bit(&t0, x) ^ ((mask >> N) & 1 == 1)));
+                kani::cover!(ind == 2, "N: the uncomplemented candidate improves");
+                kani::cover!(ind == 0, "N: no candidate improves");
+            }
             kani::cover!(true, "reached");
         }
     };
@@ -106,7 +171,7 @@ macro_rules! k04_walk_p {
 
 /// L1 walk lemma, N: arbitrary flip sequence of length <= 2, both output polarities after every flip.
 macro_rules! k04_walk_n {
-    ($name:ident, $n:literal, $t:literal, $u:literal) => {
+    ($name:ident, $n:literal, $t:literal, $maxlen:literal, $u:literal) => {
         #[kani::proof]
         #[kani::unwind($u)]
         pub fn $name() {
@@ -117,7 +182,7 @@ macro_rules! k04_walk_n {
             let seq: [u8; 2] = kani::any();
             kani::assume((seq[0] as usize) < N && (seq[1] as usize) < N);
             let len: usize = kani::any();
-            kani::assume(len <= 2);
+            kani::assume(len <= $maxlen);
             let mut table = t0;
             let mut best = [0u64; T];
             let ind = crate::canonization::n_canonization_ind(N, &mut table, &mut best, &seq[..len]);
@@ -149,8 +214,8 @@ macro_rules! k04_walk_n {
             let y = any_m(N);
             let x = y ^ ((mask as usize) & ((1usize << N) - 1));
             assert!(bit(&best, y) == (bit(&t0, x) ^ ((mask >> N) & 1 == 1)));
-            kani::cover!(ind == 0 && len == 2, "no candidate improves");
-            kani::cover!(ind == 3, "complemented candidate after the second flip is the best");
+            kani::cover!(ind == 0 && len == $maxlen, "no candidate improves");
+            kani::cover!(ind == 2 * $maxlen - 1, "complemented candidate after the last flip is the best");
             kani::cover!(true, "reached");
         }
     };
